@@ -533,6 +533,27 @@ def py_model(eng, st, name, A, n):
         r = fresh('dict_keys', Ref)
         st.pc.append(z3.And(r != NULL, M.py_is_list(r)))
         return [(st, PyObj(r, fresh=True))]
+    if name == 'PyDict_Keys':
+        # external contract (A-CAPI): the keys of the dict *storage* as a new list, no Python code runs.  For an exact dict
+        # (and defaultdict) that is its iteration order; an OrderedDict keeps its own order, so the caller must exclude it
+        d = P(0)
+        hook = getattr(eng.cur_contract, 'on_pydict_keys', None)
+        ok = hook(eng, st, d, n) if hook else z3.BoolVal(False)
+        eng.oblige(st, 'III', 'PyDict_Keys:never-applied-to-an-OrderedDict-whose-own-order-differs-from-storage-order', ok, line)
+        r = fresh('dict_keys', Ref)
+        st.pc.append(z3.And(r != NULL, M.py_is_list(r)))
+        return [(st, PyObj(r, fresh=True))]
+    if name == 'len' and len(A) == 1 and (isinstance(A[0], PyObj) or (z3.is_expr(A[0]) and A[0].sort() == Ref)):
+        # py::len(obj): PyObject_Size - runs obj.__len__ (user code) and raises for objects without a length
+        o = P(0)
+        eng.may_call_python(st, '__len__ (py::len)', line)
+        s_exc = st.clone()
+        eng.throw(s_exc, 'pybind11::error_already_set', line, 'from __len__ / object has no len()')
+        ln = fresh('py_len_result', Int)
+        st.pc.append(ln >= 0)
+        return [(st, ln)]
+    if name == 'ptr' and not A:
+        return None
     if name == 'PyList_Reverse':
         o = P(0)
         eng.oblige(st, 'IV', 'F1:PyList_Reverse:target-is-fresh', z3.BoolVal(bool(o.fresh)), line)
